@@ -10,12 +10,35 @@ returns its target."
 Model: `Model.refs` (the `reference_origins` map) with `refsAdd` / `refsRemove` / `refsFix` / `refsGet`
 (`add_reference_origin`, `remove_reference_origin`, `fix_reference_origins`, `get_references_to`);
 `qCheckRefs` / `refTarget` model `check_references` / `get_reference_target`.
-Proved for all map contents: registering a referrer under a path appends exactly that referrer to that
-path's list and leaves every other path's list alone; a stored list is what lookup returns (distinct keys).
-Partial: the history-wide invariant and the report/resolve equivalence are checked by the correspondence
-run (the dump lists every key of the reverse map, hook H1) and by the direct oracle on the real library.
+
+PROVED — invariant by induction over operations, no bound on the history (`C05_referrers_exact_reachable`): in EVERY state
+reachable from the empty world by ANY guarded history (the guards `OpOk` of C04) of the seventeen core operations of
+`Model/Step.lean` (incl. set_character_data / remove_character_data on reference elements, removal of subtrees that hold
+references, remove_from_file / remove_file), in every model and for every path `p` and element `id`: `id` occurs in the
+referrer list of `p` EXACTLY ONCE if `id` is a reference element of the tree whose text is `p`, and NOT AT ALL otherwise; no
+key is left with an empty list, keys are pairwise different.  Two auxiliary invariants were forced by the proof and are
+proved alongside: a reference element never has child elements (`WRLeaf` — otherwise removing the child would turn a
+non-registered element into an unregistered reference), and the root keeps the root type (`WRootTy`).  The specification
+enters through `RefWF` (a reference type is plain character data of a string-like kind; SHORT-NAME and root are no
+references).
+`RefWF` holds of the tables regenerated from the current source (`C05_real_tables`, kernel evaluation: 1145 reference
+types); `C05_hypotheses_are_met`: a six-type specification with a reference type meets all hypotheses, and a guarded
+history (two references given texts, one re-targeted onto the other's path, one emptied, their container removed) passes
+through the maps [] → ["/a"↦[4]] → ["/a"↦[4], "/zz"↦[5]] → ["/a"↦[4,5]] → ["/a"↦[5]] → [].
+Also proved for all map contents: the map as a multiset of (path, referrer) pairs under add / remove / fix
+(`C05_add_count`, `C05_remove_count`, `C05_fix_count`), and what `set_item_name`'s rewriting loop does to the map as a
+whole (`C05_rename_map`: the referrers of `q` afterwards are the referrers of all old keys rewritten to `q`, lists merged —
+the repaired defect §9 #5 is exactly the merge).
+Partial (named so): `set_item_name`, move, copy, `set_reference_target` and loading are outside the proved alphabet; the
+invalid-reference report / resolve equivalence is decided by the correspondence run (the dump lists every key of the
+reverse map, hook H1) and by the direct oracle on the real library.
 -/
 import AutosarVerif.Lemmas.WorldOps
+import AutosarVerif.Lemmas.RefsBridge
+import AutosarVerif.Lemmas.RenameRefsMap
+import AutosarVerif.Lemmas.IndexWitness
+import AutosarVerif.Lemmas.RefsWitness
+import AutosarVerif.Lemmas.RefWfReal
 
 namespace AV.C05
 open AV.W
@@ -27,9 +50,60 @@ theorem C05_add_leaves_others (rs : List (Bytes × List Nat)) (p q : Bytes) (id 
 theorem C05_lookup_returns_stored (rs : List (Bytes × List Nat)) (p : Bytes) (l : List Nat) (hn : keysNodup rs)
     (h : (p, l) ∈ rs) : refsGet rs p = l := refsGet_of_mem rs p l hn h
 
+/-- the map as a multiset: `add_reference_origin` -/
+theorem C05_add_count (rs : List (Bytes × List Nat)) (p q : Bytes) (id j : Nat) (hn : keysNodup rs) :
+    (refsGet (refsAdd rs p id) q).count j = (refsGet rs q).count j + (if q = p ∧ j = id then 1 else 0) :=
+  refsAdd_count rs p q id j hn
+/-- `remove_reference_origin` drops one occurrence (none, if there is none) -/
+theorem C05_remove_count (rs : List (Bytes × List Nat)) (p q : Bytes) (id j : Nat) (hn : keysNodup rs) :
+    (refsGet (refsRemove rs p id) q).count j = (refsGet rs q).count j - (if q = p ∧ j = id then 1 else 0) :=
+  refsRemove_count rs p q id j hn
+/-- `fix_reference_origins(old, new, origin)` -/
+theorem C05_fix_count (rs : List (Bytes × List Nat)) (old new q : Bytes) (id j : Nat) (hn : keysNodup rs) :
+    (refsGet (refsFix rs old new id) q).count j =
+      if old = new then (refsGet rs q).count j
+      else (refsGet rs q).count j - (if q = old ∧ j = id then 1 else 0) + (if q = new ∧ j = id then 1 else 0) :=
+  refsFix_count rs old new q id j hn
+
+/-- the rewriting loop of `set_item_name` on the map: afterwards the referrers of `q` are the referrers of ALL old keys that
+are rewritten to `q` (a list moved onto an existing key is merged with it, nothing is dropped) -/
+theorem C05_rename_map (rs : List (Bytes × List Nat)) (root : Items) (old new : Bytes) (hn : keysNodup rs)
+    (hne : refsNonempty rs) (hnd : ∀ e ∈ rs, ∀ s, pathSuffix old e.1 = some s → pathSuffix old (new ++ s) = none)
+    (q : Bytes) (id : Nat) :
+    (refsGet (renameRefs rs root old new).1 q).count id =
+      ((rs.filter fun e => rekey old new e.1 == q).map fun e => e.2.count id).sum :=
+  renameRefs_count rs root old new hn hne hnd q id
+
 /-! non-vacuity -/
 example : refsGet (refsAdd [([47, 97], [3])] [47, 97] 5) [47, 97] = [3, 5] := by decide
 example : refsGet (refsRemove [([47, 97], [3, 5])] [47, 97] 3) [47, 97] = [5] := by decide
 example : refsFix [([47, 97], [3])] [47, 97] [47, 98] 3 = [([47, 98], [3])] := by decide
+
+/-- one guarded step keeps the combined invariant (index exact, referrer lists exact, references are leaves, root type) -/
+theorem C05_core_step (S : Spec) (V : Env) (vOk : Nat) (rootAttrs : List (Nat × CDv)) (hH : IdxHyp S V vOk) (hR : RefWF S)
+    (w : World) (op : Op) (hop : OpOk S vOk op) (h : CInv S vOk w) : CInv S vOk (applyOp S V rootAttrs w op).1 :=
+  applyOp_cinv S V vOk rootAttrs hH hR w op hop h
+
+/-- **C05 over all histories**: in every reachable state of a guarded history, in every model, `id` is listed as a referrer
+of `p` exactly once if it is a reference element of the tree whose text is `p`, and not at all otherwise -/
+theorem C05_referrers_exact_reachable (S : Spec) (V : Env) (vOk : Nat) (rootAttrs : List (Nat × CDv)) (hH : IdxHyp S V vOk)
+    (hR : RefWF S) (ops : List Op) (hops : ∀ op ∈ ops, OpOk S vOk op) :
+    ∀ m ∈ (run S V rootAttrs ops).models,
+      keysNodup m.refs ∧ refsNonempty m.refs ∧
+      ∀ (p : Bytes) (id : Nat)
+        [Decidable (∃ h k, Occ h k m.rootItems ∧ h.id = id ∧ S.isRef h.ety.typ = true ∧ charData S h k = some (.str p))],
+        (refsGet m.refs p).count id =
+          if ∃ h k, Occ h k m.rootItems ∧ h.id = id ∧ S.isRef h.ety.typ = true ∧ charData S h k = some (.str p) then 1 else 0 := by
+  intro m hm
+  obtain ⟨hw, hr, _, _⟩ := run_cinv S V vOk rootAttrs hH hR ops hops
+  have he := hr m hm
+  exact ⟨he.1, he.2.1, fun p id _ => refsExact_count S m.refs m.rootItems (hw m hm).ids he p id⟩
+
+/-- the facts the invariant needs about reference types hold of the tables regenerated from the current source -/
+theorem C05_real_tables : RefWF AV.Gen.realSpec := AV.Gen.realSpec_refWF
+
+/-- non-vacuity: the hypotheses are met by `refSpec` / `nameEnv`, the history `refOps` is guarded, and the theorem applies -/
+theorem C05_hypotheses_are_met : IdxHyp refSpec nameEnv 6 ∧ RefWF refSpec ∧ (∀ op ∈ refOps, OpOk refSpec 6 op) ∧
+    CInv refSpec 6 (run refSpec nameEnv [] refOps) := ⟨refSpec_hyp, refSpec_refWF, refOps_ok, refOps_cinv⟩
 
 end AV.C05
